@@ -2,7 +2,7 @@
   Driver.Cast — cast cases:  cast \t <prop> \t <callee> \t <src> \t <ext> \t <impl result>
 -/
 import Driver.Common
-import Model.CastGen
+import Model.CastMerge
 import Model.CastSpec
 
 namespace Jl.Driver.CastCase
@@ -10,8 +10,8 @@ open Jl Jl.Driver
 
 def modelResult (ext : Ext) (callee : String) (src : Dyn) : Option (Outcome Dyn) :=
   if callee.startsWith "To:" then
-    (Ty.ofName? (dropS callee 3)).map fun t => Cast.castTo genTables ext t src
-  else some (Cast.castNamed genTables ext callee src)
+    (Ty.ofName? (dropS callee 3)).map fun t => Cast.castTo drvTables ext t src
+  else some (Cast.castNamed drvTables ext callee src)
 
 /-- The Ty a callee promises. -/
 def promised (callee : String) : Option Ty :=
@@ -89,10 +89,10 @@ def runRT (prop via srcS extS textS backS : String) : Result :=
     let implBack : Option (Outcome Dyn) := if backS == "-" then none else parseOutcome backS
     if backS != "-" && implBack.isNone then ⟨"B", s!"cannot parse back result: {backS}"⟩ else
     let ext := parseExt extS
-    let mText := Cast.castNamed genTables ext via src
+    let mText := Cast.castNamed drvTables ext via src
     let mBack : Option (Outcome Dyn) :=
       match mText with
-      | .ok t => some (Cast.castTo genTables ext (Cast.typeOf src) t)
+      | .ok t => some (Cast.castTo drvTables ext (Cast.typeOf src) t)
       | _ => none
     let ms := showOutcome mText ++ " / " ++ (match mBack with | some b => showOutcome b | none => "-")
     let is := showOutcome implText ++ " / " ++ (match implBack with | some b => showOutcome b | none => "-")
